@@ -140,6 +140,12 @@ def triviallyDoubleCommutesDualBasis (a b c : Term) : Bool :=
         let counts := countChanges (a ++ b ++ c)
         counts.any (fun e => e.2 > 1) || counts.any (fun e => e.2 < -1)
 
+/-- input class of known finding F07: `b` is a one-mode number operator `p^ p` and `c` a
+hopping term `r^ s` (`r ≠ s`) acting on `p` (the same classifier as `f07_class` in harness/c07.py) -/
+def f07Class (b c : Term) : Bool :=
+  b.length == 2 && fIdx b 0 == fIdx b 1 && c.length == 2 && fIdx c 0 != fIdx c 1 &&
+    (fIdx b 0 == fIdx c 0 || fIdx b 0 == fIdx c 1)
+
 /-- the index *sets* are lists without repetition; only set operations are used -/
 def triviallyDoubleCommutesTermInfo (ia ib iap : List Nat) (_ha hb hap : Bool) (jellium : Bool) : Bool :=
   if !(hb || hap) then true
